@@ -116,6 +116,22 @@ impl Default for Imp {
 		Self::new()
 	}
 }
+thread_local! {
+	static EVALS_SINCE_GC: std::cell::Cell<u32> = const { std::cell::Cell::new(0) };
+}
+/// the implementation's values are cycle-collected: long-running workers must collect now and then
+pub fn maybe_collect() {
+	EVALS_SINCE_GC.with(|c| {
+		let n = c.get() + 1;
+		if n >= 512 {
+			c.set(0);
+			jrsonnet_gcmodule::collect_thread_cycles();
+		} else {
+			c.set(n);
+		}
+	});
+}
+
 impl Imp {
 	pub fn new() -> Self {
 		let traces = Rc::new(RefCell::new(Vec::new()));
@@ -146,11 +162,13 @@ impl Imp {
 
 	/// evaluate with the state entered (so nested imports / ext code work), default parser via the public entry point
 	pub fn eval(&self, code: &str) -> Result<Val, Error> {
+		maybe_collect();
 		let _g = self.state.try_enter();
 		self.state.evaluate_snippet("<snippet>", code)
 	}
 	/// evaluate with an explicit parser
 	pub fn eval_with(&self, parser: Parser, code: &str) -> Result<Val, Error> {
+		maybe_collect();
 		let _g = self.state.try_enter();
 		let source = Source::new_virtual("<snippet>".into(), code.into());
 		let parsed = match parser {
